@@ -1,0 +1,27 @@
+//go:build verif
+
+package bbolt
+
+import (
+	"go.etcd.io/bbolt"
+
+	"github.com/safing/portbase/database/record"
+)
+
+// VerifDump returns the metadata of every physically stored record (verification harness only).
+func (b *BBolt) VerifDump() (map[string]record.Meta, error) {
+	all := make(map[string]record.Meta)
+	err := b.db.View(func(tx *bbolt.Tx) error {
+		return tx.Bucket(bucketName).ForEach(func(key, value []byte) error {
+			duplicate := make([]byte, len(value))
+			copy(duplicate, value)
+			w, err := record.NewRawWrapper(b.name, string(key), duplicate)
+			if err != nil {
+				return err
+			}
+			all[string(key)] = *w.Meta()
+			return nil
+		})
+	})
+	return all, err
+}
